@@ -12,6 +12,7 @@ use serde_json::{json, Value};
 use std::io::{BufRead, Write};
 use std::time::Duration;
 
+#[allow(dead_code)]
 fn text_of_cps(v: &Value) -> String {
     v.as_array()
         .map(|a| a.iter().filter_map(|c| c.as_u64()).filter_map(|c| char::from_u32(c as u32)).collect())
@@ -34,8 +35,9 @@ pub fn nest(nodes: &[Value], id: usize) -> Value {
         }
         "Float" => json!({"k":"Float","bits":format!("{}/{}", n.get("m").unwrap_or(&json!("x")), n.get("e").unwrap_or(&json!("x")))}),
         "Bool" => json!({"k":"Bool","v":n["v"]}),
-        "Str" => json!({"k":"Str","cp":text_of_cps(&n["cp"])}),
-        "Ident" => json!({"k":"Ident","name":text_of_cps(&n["name"])}),
+        // (texts stay sequences of code points: TLC's own strings are not reliable beyond ASCII)
+        "Str" => json!({"k":"Str","cp":n["cp"]}),
+        "Ident" => json!({"k":"Ident","name":n["name"]}),
         "Infix" => json!({"k":"Infix","op":n["op"],"l":kid("l"),"r":kid("r")}),
         "Prefix" => json!({"k":"Prefix","op":n["op"],"r":kid("r")}),
         "Call" => json!({"k":"Call","f":kid("f"),"args":kids("args")}),
@@ -45,10 +47,9 @@ pub fn nest(nodes: &[Value], id: usize) -> Value {
         "If" => json!({"k":"If","c":kid("c"),"th":kids("th"),"hasel":n["hasel"],"el":kids("el")}),
         "While" => json!({"k":"While","c":kid("c"),"body":kids("body")}),
         "Func" => {
-            let params: Vec<Value> = n["params"].as_array().cloned().unwrap_or_default().iter().map(|p| json!(text_of_cps(p))).collect();
-            json!({"k":"Func","name":text_of_cps(&n["name"]),"params":params,"body":kids("body")})
+            json!({"k":"Func","name":n["name"],"params":n["params"],"body":kids("body")})
         }
-        "Let" => json!({"k":"Let","name":text_of_cps(&n["name"]),"e":kid("e")}),
+        "Let" => json!({"k":"Let","name":n["name"],"e":kid("e")}),
         "Return" => json!({"k":"Return","e":kid("e")}),
         "Expr" => json!({"k":"Expr","e":kid("e")}),
         "Block" => json!({"k":"Block","body":kids("body")}),
@@ -168,6 +169,37 @@ pub fn render(toks: &[Value], style: u64, rng: &mut StdRng) -> String {
     s
 }
 
+/// The specification prints names and texts as TLA+ strings; records carry code points
+fn strings_to_cps(v: &mut Value) {
+    match v {
+        Value::Object(m) => {
+            for (k, x) in m.iter_mut() {
+                if (k == "name" || k == "cp") && x.is_string() {
+                    let s = x.as_str().unwrap().to_string();
+                    *x = Value::Array(s.chars().map(|c| json!(c as u32)).collect());
+                } else if k == "params" {
+                    if let Some(a) = x.as_array_mut() {
+                        for p in a.iter_mut() {
+                            if p.is_string() {
+                                let s = p.as_str().unwrap().to_string();
+                                *p = Value::Array(s.chars().map(|c| json!(c as u32)).collect());
+                            }
+                        }
+                    }
+                } else {
+                    strings_to_cps(x);
+                }
+            }
+        }
+        Value::Array(a) => {
+            for x in a.iter_mut() {
+                strings_to_cps(x);
+            }
+        }
+        _ => {}
+    }
+}
+
 /// specification vectors (tree + printed form) -> records for TV_Parse
 pub fn replay_parse(args: &Args) {
     let inp = args.get("in", "/dev/stdin");
@@ -186,6 +218,8 @@ pub fn replay_parse(args: &Args) {
             Err(_) => continue,
         };
         let toks = v["toks"].as_array().cloned().unwrap_or_default();
+        let mut expect = v["tree"].clone();
+        strings_to_cps(&mut expect);
         for l in 0..layouts {
             let style = if l == 0 { 0 } else { rng.gen_range(1..6) };
             let text = render(&toks, style, &mut rng);
@@ -196,7 +230,7 @@ pub fn replay_parse(args: &Args) {
             } else {
                 (false, json!([]))
             };
-            writeln!(o, "{}", json!({"id":id,"expect":v["tree"],"got":got,"ok":ok,"style":style,"text":text,
+            writeln!(o, "{}", json!({"id":id,"expect":expect,"got":got,"ok":ok,"style":style,"text":text,
                 "err":p.get("msg").cloned().unwrap_or(json!(""))})).unwrap();
             id += 1;
         }
